@@ -2,6 +2,7 @@ package verifsim
 
 import (
 	"regexp"
+	"strings"
 )
 
 // Matcher is one selector matcher of the reference selection model.
@@ -9,10 +10,18 @@ type Matcher struct {
 	Label string `json:"label"`
 	Op    string `json:"op"` // = != =~ !~
 	Value string `json:"value"`
+	// Raw: spell the value as a backquoted raw string where possible.
+	Raw bool `json:"raw,omitempty"`
 }
 
 // String renders the matcher in LogQL.
-func (m Matcher) String() string { return m.Label + m.Op + quoteLogQL(m.Value) }
+func (m Matcher) String() string {
+	if m.Raw && !strings.ContainsAny(m.Value, "`") {
+		// a raw string: every byte stands for itself (a carriage return too)
+		return m.Label + m.Op + "`" + m.Value + "`"
+	}
+	return m.Label + m.Op + quoteLogQL(m.Value)
+}
 
 // quoteLogQL quotes s as a LogQL double-quoted string.
 func quoteLogQL(s string) string {
